@@ -219,3 +219,21 @@ def probe(sc):
     if 'error' in r:
         raise RuntimeError(r['error'])
     return r['steps'], r['s3calls']
+
+
+def single_deviations(sc, limit=None, rng=None):
+    """Systematic exploration: the default (non-preemptive) schedule and every
+    schedule that deviates from it at exactly one scheduling point."""
+    import pipeline
+    r = pipeline._run_job((sc, ('dfs', [], 1), 0))
+    if 'error' in r:
+        raise RuntimeError(r['error'])
+    log = r.get('dfs_log') or []
+    jobs = [(sc, ('dfs', [], 1))]
+    cands = []
+    for i, (nalts, taken) in enumerate(log):
+        for k in range(1, nalts):
+            cands.append((sc, ('dfs', [0] * i + [k], 1)))
+    if limit and len(cands) > limit:
+        cands = rng.sample(cands, limit)
+    return jobs + cands
